@@ -116,6 +116,9 @@ func (c *Authority) VerifyPartialCert(cert hotstuff.PartialCert) error {
 func (c *Authority) VerifyQuorumCert(qc hotstuff.QuorumCert) error {
 	// genesis QC is always valid.
 	if qc.BlockHash() == hotstuff.GetGenesis().Hash() {
+		if qc.View() != hotstuff.GetGenesis().View() {
+			return fmt.Errorf("genesis quorum certificate has non-zero view %d", qc.View())
+		}
 		return nil
 	}
 
@@ -133,6 +136,9 @@ func (c *Authority) VerifyQuorumCert(qc hotstuff.QuorumCert) error {
 	block, ok := c.blockchain.Get(qc.BlockHash())
 	if !ok {
 		return fmt.Errorf("block not found: %v", qc.BlockHash())
+	}
+	if qc.View() != block.View() {
+		return fmt.Errorf("quorum certificate view %d does not match block view %d", qc.View(), block.View())
 	}
 	return c.Verify(qc.Signature(), block.ToBytes())
 }
